@@ -14,6 +14,13 @@ R26b envelope: serialize() writes `_type` (= type(msg).__qualname__) and `_ns` (
      names are rejected before use; the constructed object is checked to be a MessageBase; no two
      message classes in one namespace share a name; every concrete subclass of MessageBase lives in
      one of the three namespaces.
+R26d one encoder: what serialize() returns is a python-mode dump, not JSON text; the only encoder whose output json.loads
+     restores for every value R26a admits (non-finite floats as Infinity/NaN tokens, lone surrogates escaped) is json.dumps.
+     Every call of the protocol serialize() must therefore be the argument of json.dumps - a dump handed as a dict to a
+     library's own encoder (the rpc library's pydantic model_dump_json, httpx `json=`) writes null for inf/nan and cannot
+     encode surrogates.
+R26e the python-mode dump is accepted by that encoder: while serialize() calls model_dump() without mode="json", no field in
+     the closure of a protocol message is a set/frozenset (json.dumps raises TypeError on a set).
 Decides the type-level necessary condition; float edge values (NaN) and value equality after the
 round trip are not decided.
 """
@@ -33,6 +40,12 @@ LOSSY_NAMES = {"bytes": "bytes is not JSON serialisable", "bytearray": "bytearra
                "Any": "untyped field: nothing guarantees a JSON-safe value", "object": "untyped field",
                "Callable": "callables cannot be serialised"}
 SCALARS = {"str", "int", "float", "bool", "None", "NoneType", "datetime", "date", "UUID"}
+
+
+def _ancestors(pm, n):
+    while id(n) in pm:
+        n = pm[id(n)]
+        yield n
 
 
 def _is_model(c: ClassInfo) -> bool:
@@ -66,6 +79,8 @@ def run(ctx) -> None:
                 out.append((k, name, ann))
         return out
 
+    set_fields: list = []
+
     def check_type(ts, owner: ClassInfo, field: str, path: str, depth: int = 0):
         nonlocal checked_fields
         if depth > 8:
@@ -88,6 +103,8 @@ def run(ctx) -> None:
                 ctx.fail("R26a", None, owner.node, path, f"field type {t.cls.qualname} is neither a pydantic model nor an enum",
                          function=owner.qualname, file=owner.module.relpath)
                 continue
+            if t.name in ("set", "Set", "frozenset", "FrozenSet", "AbstractSet"):
+                set_fields.append((owner, field, path))
             if t.name in LOSSY_NAMES:
                 ctx.fail("R26a", None, owner.class_attr_ann.get(field, owner.node), path, LOSSY_NAMES[t.name],
                          function=owner.qualname, file=owner.module.relpath)
@@ -119,6 +136,64 @@ def run(ctx) -> None:
     ctx.extra["fields_checked"] = checked_fields
     if len(msgs) < 20 or checked_fields < 80:
         raise AnchorError(f"only {len(msgs)} message classes / {checked_fields} fields found (floors 20 / 80)")
+
+    # ---- R26d / R26e
+    ctx.rule("R26d", "every serialize() result is encoded by json.dumps")
+    ctx.rule("R26e", "the python-mode dump contains nothing json.dumps rejects")
+    ser = prog.func("openpectus.protocol.serialization:serialize")
+    ctx.analysed(ser)
+    dumps = [c for c in walk_no_nested(ser.node) if isinstance(c, ast.Call) and call_attr(c) == "model_dump"]
+    if not dumps:
+        raise AnchorError("serialize(): no model_dump() call")
+    json_mode = all(any(k.arg == "mode" and isinstance(k.value, ast.Constant) and k.value.value == "json" for k in c.keywords) for c in dumps)
+    for owner, field, path in set_fields:
+        inst = f"{path} is a set in a python-mode dump"
+        if json_mode:
+            ctx.ok("R26e", inst)
+        else:
+            ctx.fail("R26e", None, owner.class_attr_ann.get(field, owner.node), inst, "serialize() returns model_dump() in python mode, "
+                     "which keeps this field a set: json.dumps(serialize(msg)) - the encoding both dispatchers use for rpc results - "
+                     "raises TypeError, so the message does not survive serialization to JSON", function=owner.qualname,
+                     file=owner.module.relpath)
+    if not set_fields:
+        ctx.ok("R26e", "no set-typed field in the closure")
+    from ..model import parent_map
+    n_sites = 0
+    for mod in prog.modules.values():
+        if mod.is_test or not mod.name.startswith("openpectus.protocol") or mod is ser.module:
+            continue
+        imports_ser = any(isinstance(st, ast.ImportFrom) and (st.module or "").endswith("protocol.serialization")
+                          and any(a.name == "serialize" for a in st.names) for st in mod.tree.body)
+        if not imports_ser:
+            continue
+        pm = parent_map(mod.tree)
+        for c in ast.walk(mod.tree):
+            if not (isinstance(c, ast.Call) and isinstance(c.func, ast.Name) and c.func.id == "serialize"):
+                continue
+            n_sites += 1
+            names = [x.name for x in _ancestors(pm, c) if isinstance(x, (ast.FunctionDef, ast.AsyncFunctionDef, ast.ClassDef))]
+            where = ".".join(reversed(names))
+            scope = next((x for x in _ancestors(pm, c) if isinstance(x, (ast.FunctionDef, ast.AsyncFunctionDef))), mod.tree)
+            par = pm.get(id(c))
+            direct = isinstance(par, ast.Call) and norm(par.func) in ("json.dumps", "dumps") and par.args and par.args[0] is c
+            via_local = False
+            if isinstance(par, ast.Assign) and len(par.targets) == 1 and isinstance(par.targets[0], ast.Name):
+                v = par.targets[0].id
+                uses = [u for u in ast.walk(scope) if isinstance(u, ast.Name) and u.id == v and isinstance(u.ctx, ast.Load)
+                        and u.lineno >= par.lineno]
+                via_local = bool(uses) and all(isinstance(pm.get(id(u)), ast.Call) and norm(pm[id(u)].func) in ("json.dumps", "dumps")
+                                               and pm[id(u)].args and pm[id(u)].args[0] is u for u in uses)
+            inst = f"{where}: `{norm(par if par is not None else c)[:70]}` is encoded by json.dumps"
+            if direct or via_local:
+                ctx.ok("R26d", inst)
+            else:
+                ctx.fail("R26d", None, c, inst, "the python-mode dump is handed on as a dict and encoded by the transport's own encoder "
+                         "(pydantic model_dump_json inside the rpc library): inf/-inf/nan are written as null - a tag value arrives "
+                         "as None, a required float field makes the receiver reject the whole message - and a str with a lone "
+                         "surrogate cannot be encoded at all; the same message does round-trip through json.dumps/json.loads",
+                         function=f"{mod.name}:{where}", file=mod.relpath)
+    if n_sites < 6:
+        raise AnchorError(f"only {n_sites} serialize() call sites found in openpectus.protocol (floor 6)")
 
     # ---- R26c: no model in the closure customises its own (de)serialisation
     ctx.rule("R26c", "no protocol model customises how it is dumped or validated")
